@@ -1,8 +1,10 @@
 import Driver.Ops.Run
+import Driver.Ops.Sel
 import TacklerModel.Model.Balance
 /-! output kind `balance` of op `run`: rows and deltas of the balance kernel.
-    Account selector (until the regex model is wired in): `msel_balance` = list of exact account names
-    (absent or empty = all accounts). -/
+    Account selector (see `Driver/Ops/Sel.lean`): `msel_balance` = list of exact account names
+    (absent or empty = all accounts), else `sel_balance` / `sel_global` = configured pattern lists
+    (`Tackler.balanceBySel`). -/
 open Lean Tackler Codec
 
 namespace Ops
@@ -22,8 +24,12 @@ def selNames (j : Json) (k : String) : R (List String) :=
   | some v => strList v
   | none => pure []
 
+def jUndefOut : Json := Json.mkObj [("r", "UNDEF")]
+
 def outBalance : OutputFn := fun j st ts => do
-  let names ← selNames j "msel_balance"
-  pure (outcome (fromIter st (exactSel names) (postsOf ts)) jBalance)
+  match ← caseSel j "balance" ts with
+  | .exact names => pure (outcome (fromIter st (exactSel names) (postsOf ts)) jBalance)
+  | .pats ras => pure (outcome (balanceBySel st ras (postsOf ts)) jBalance)
+  | .undef => pure jUndefOut
 
 end Ops
